@@ -59,6 +59,9 @@
 (*                      declarative data-flow (each consumer reads the     *)
 (*                      last writer listed before it, else the input;      *)
 (*                      each name ends with the value of its last writer)  *)
+(*   NestAssoc          grouping consecutive members of an MDOChain in an  *)
+(*                      inner MDOChain changes neither the grammar (names, *)
+(*                      required names, defaults) nor any execution        *)
 (*   ResOK              the result recorded by Execute is that data        *)
 (* Action property:                                                        *)
 (*   NsCouplingStep     namespacing an output (input) of a discipline      *)
@@ -120,6 +123,8 @@ RECURSIVE WSum(_, _)
 WSum(X, i) == IF i = 0 THEN 0
               ELSE WSum(X, i - 1) + (IF NameSeq[i] \in DOMAIN X THEN W[NameSeq[i]] * X[NameSeq[i]] ELSE 0)
 Leaf(k, o, X) == KBase * k + OBase * Idx(o) + WSum(X, NN)
+JunkName == "zz"        \* a leaf also returns an item of this name and one per bare input that is not an
+JunkVal == 7777         \* output of it, all with this value: IO.update_output_data ignores what is not an output
 
 ---------------------------------------------------------------------------------
 (* instances *)
@@ -162,9 +167,12 @@ RunDisc(k, d, data) ==
   IF ~Accepts(d, P) THEN [ok |-> FALSE, data |-> EmptyF, inp |-> P]
   ELSE LET X    == IF DOMAIN d.inTo = {} THEN P ELSE Strip(P)           \* what _run receives
            bin  == {BareOf[f] : f \in d.ins}                            \* the leaf reads its own bare inputs
-           raw  == [o \in {BareOf[f] : f \in d.outs} |-> Leaf(k, o, Restrict(X, bin))]   \* what _run returns
-           Tgt(o) == IF o \in d.outs THEN o ELSE d.outTo[o]             \* update_output_data
-           out  == [f \in {Tgt(o) : o \in DOMAIN raw} |-> raw[CHOOSE o \in DOMAIN raw : Tgt(o) = f]]
+           bout == {BareOf[f] : f \in d.outs}
+           raw  == [o \in bout \cup (bin \ bout) \cup {JunkName} |->                  \* what _run returns: its
+                      IF o \in bout THEN Leaf(k, o, Restrict(X, bin)) ELSE JunkVal]   \* outputs and foreign items
+           kept == {o \in DOMAIN raw : o \in d.outs \/ o \in DOMAIN d.outTo}          \* update_output_data:
+           Tgt(o) == IF o \in d.outs THEN o ELSE d.outTo[o]                           \* the others are ignored
+           out  == [f \in {Tgt(o) : o \in kept} |-> raw[CHOOSE o \in kept : Tgt(o) = f]]
        IN [ok |-> TRUE, data |-> Override(P, out), inp |-> P]
 
 ---------------------------------------------------------------------------------
@@ -177,8 +185,13 @@ RunDisc(k, d, data) ==
    defaults of the names not excluded overwrite; the required names not excluded are added. *)
 EmptyC == [ins |-> {}, req |-> {}, dflt |-> EmptyF, outs |-> {},
            inTo |-> EmptyF, inFrom |-> EmptyF, outTo |-> EmptyF, outFrom |-> EmptyF]
-MergeNs(m, m2) == [x \in DOMAIN m \cup DOMAIN m2 |->
-                     (IF x \in DOMAIN m THEN m[x] ELSE <<>>) \o (IF x \in DOMAIN m2 THEN <<m2[x]>> ELSE <<>>)]
+SeqOf(m, x) == IF x \in DOMAIN m THEN m[x] ELSE <<>>
+MergeNs(m, m2) == [x \in DOMAIN m \cup DOMAIN m2 |-> SeqOf(m, x) \o SeqOf(m2, x)]    \* update_namespaces
+Listed(m) == [x \in DOMAIN m |-> <<m[x]>>]
+View(d) ==         \* a leaf seen as a member of a composite: its namespace maps hold one entry per name;
+                   \* a composite is already of this shape (it can be a member of another composite)
+  [ins |-> d.ins, req |-> d.req, dflt |-> d.dflt, outs |-> d.outs,
+   inTo |-> Listed(d.inTo), inFrom |-> Listed(d.inFrom), outTo |-> Listed(d.outTo), outFrom |-> Listed(d.outFrom)]
 UpdateIn(g, d, excl) ==
   IF d.ins = {} THEN g                                  \* "if not grammar: return"
   ELSE [g EXCEPT !.ins = @ \cup (d.ins \ excl),
@@ -189,11 +202,13 @@ UpdateOut(g, d) ==
   IF d.outs = {} THEN g
   ELSE [g EXCEPT !.outs = @ \cup d.outs, !.outTo = MergeNs(@, d.outTo), !.outFrom = MergeNs(@, d.outFrom)]
 RECURSIVE FoldG(_, _, _, _)
-FoldG(ds, kind, k, g) ==
-  IF k > N THEN g
-  ELSE FoldG(ds, kind, k + 1,
-             UpdateOut(UpdateIn(g, ds[k], IF kind = "chain" THEN g.outs ELSE {}), ds[k]))
-BuildG(ds, kind) == FoldG(ds, kind, 1, EmptyC)
+FoldG(vs, kind, k, g) ==            \* vs: sequence of members (views)
+  IF k > Len(vs) THEN g
+  ELSE FoldG(vs, kind, k + 1,
+             UpdateOut(UpdateIn(g, vs[k], IF kind = "chain" THEN g.outs ELSE {}), vs[k]))
+BuildV(vs, kind) == FoldG(vs, kind, 1, EmptyC)
+Views(ds, lo, hi) == [i \in 1..(hi - lo + 1) |-> View(ds[lo + i - 1])]
+BuildG(ds, kind) == BuildV(Views(ds, 1, N), kind)
 
 (* the same grammars, declaratively *)
 Before(ds, kind, k) == IF kind = "chain" THEN UNION {ds[j].outs : j \in 1..(k - 1)} ELSE {}
@@ -207,11 +222,12 @@ DeclOuts(ds)       == UNION {ds[k].outs : k \in K}
 ---------------------------------------------------------------------------------
 (* execution of the composite *)
 Fail(k) == [ok |-> FALSE, at |-> k, data |-> EmptyF, steps |-> <<>>]
-RECURSIVE ChainRun(_, _, _, _)
-ChainRun(ds, k, data, steps) ==     \* MDOChain._execute: io.data.update(discipline.execute(io.data))
-  IF k > N THEN [ok |-> TRUE, at |-> 0, data |-> data, steps |-> steps]
+RECURSIVE ChainRunR(_, _, _, _, _)
+ChainRunR(ds, k, hi, data, steps) ==     \* MDOChain._execute: io.data.update(discipline.execute(io.data))
+  IF k > hi THEN [ok |-> TRUE, at |-> 0, data |-> data, steps |-> steps]
   ELSE LET r == RunDisc(k, ds[k], data) IN
-       IF ~r.ok THEN Fail(k) ELSE ChainRun(ds, k + 1, Override(data, r.data), Append(steps, r.data))
+       IF ~r.ok THEN Fail(k) ELSE ChainRunR(ds, k + 1, hi, Override(data, r.data), Append(steps, r.data))
+ChainRun(ds, k, data, steps) == ChainRunR(ds, k, N, data, steps)
 RECURSIVE ParCollect(_, _, _, _)
 ParCollect(ds, P, k, data) ==       \* MDOParallelChain._execute: the outputs, in listing order
   IF k > N THEN data
@@ -225,6 +241,23 @@ SubRun(ds, kind, P) == IF kind = "chain" THEN ChainRun(ds, 1, P, <<>>) ELSE ParR
 Exec(ds, c, D) ==                   \* composite.execute(D); at = 0 and not ok: rejected by the composite's grammar
   LET P == Prepare(c.g, D) IN
   IF ~Accepts(c.g, P) THEN Fail(0) ELSE SubRun(ds, c.kind, P)
+
+(* an MDOChain whose members lo..hi are grouped in an inner MDOChain:
+     MDOChain([d_1, .., d_(lo-1), MDOChain([d_lo, .., d_hi]), d_(hi+1), .., d_N])                     *)
+InnerG(ds, lo, hi) == BuildV(Views(ds, lo, hi), "chain")
+NestedG(ds, lo, hi) == BuildV(Views(ds, 1, lo - 1) \o <<InnerG(ds, lo, hi)>> \o Views(ds, hi + 1, N), "chain")
+NestedExecG(ds, lo, hi, og, ig, D) ==       \* og, ig: the grammars of the outer and of the inner chain
+  LET P0 == Prepare(og, D) IN
+  IF ~Accepts(og, P0) THEN Fail(0)
+  ELSE LET r1 == ChainRunR(ds, 1, lo - 1, P0, <<>>) IN
+       IF ~r1.ok THEN r1
+       ELSE LET Pi == Prepare(ig, r1.data)                       \* the inner chain is executed as a discipline
+            IN IF ~Accepts(ig, Pi) THEN Fail(lo)
+               ELSE LET r2 == ChainRunR(ds, lo, hi, Pi, r1.steps) IN
+                    IF ~r2.ok THEN r2
+                    ELSE ChainRunR(ds, hi + 1, N, Override(r1.data, r2.data), r2.steps)
+NestedSame(ds, c, lo, hi, og, ig, Ds) == \A D \in Ds : NestedExecG(ds, lo, hi, og, ig, D) = Exec(ds, c, D)
+Nestings == {<<lo, hi>> \in K \X K : lo < hi}
 
 (* the same data, declaratively: who reads what *)
 Writers(ds, kind, k, f) == IF kind = "chain" THEN {j \in 1..(k - 1) : f \in ds[j].outs} ELSE {}
@@ -281,7 +314,11 @@ AddNamespaceToOutput(k, f, ns) ==
                             exc |-> IF good THEN "" ELSE IF f \in d.outs THEN "ValueError" ELSE "KeyError"])
   /\ UNCHANGED <<code, chain, res>>
 
-Execs(ds, c) == {[D |-> D, r |-> Exec(ds, c, D)] : D \in DataChoices(ds, c)}
+Accessors(ds, r) ==      \* get_input_data / get_output_data(with_namespaces=False) of every leaf after the execution
+  IF ~r.ok THEN <<>>
+  ELSE [k \in K |-> [inb  |-> Strip(Restrict(r.steps[k], ds[k].ins)),
+                     outb |-> Strip(Restrict(r.steps[k], ds[k].outs))]]
+Execs(ds, c) == {LET r == Exec(ds, c, D) IN [D |-> D, r |-> r, acc |-> Accessors(ds, r)] : D \in DataChoices(ds, c)}
 
 Build(kind) ==
   /\ chain.kind = "none"
@@ -289,7 +326,15 @@ Build(kind) ==
   /\ chain' = [kind |-> kind, g |-> BuildG(discs, kind)]
   /\ (Emit => PrintT(ToJson([tag |-> "CASE", code |-> code, n |-> N, init |-> [k \in K |-> Disc0(code, k)],
                               ops |-> ops, kind |-> kind, discs |-> discs, g |-> chain'.g,
-                              flow |-> FlowOf(discs), execs |-> Execs(discs, chain')])))
+                              flow |-> FlowOf(discs), execs |-> Execs(discs, chain'),
+                              nest |-> IF kind = "chain"
+                                       THEN {LET og == NestedG(discs, nst[1], nst[2])
+                                                 ig == InnerG(discs, nst[1], nst[2]) IN
+                                             [lo |-> nst[1], hi |-> nst[2], g |-> og, inner |-> ig,
+                                              same |-> NestedSame(discs, chain', nst[1], nst[2], og, ig,
+                                                                  DataChoices(discs, chain'))]
+                                             : nst \in Nestings}
+                                       ELSE {}])))
   /\ UNCHANGED <<code, discs, ops, res>>
 BuildChain == Build("chain")
 BuildParallelChain == Build("parallel")
@@ -335,7 +380,6 @@ Inverse(to, from, names) ==
 NsBijective == \A k \in K : /\ Inverse(discs[k].inTo, discs[k].inFrom, discs[k].ins)
                             /\ Inverse(discs[k].outTo, discs[k].outFrom, discs[k].outs)
 
-SeqOf(m, x) == IF x \in DOMAIN m THEN m[x] ELSE <<>>
 ChainNsCoherent ==
   chain.kind # "none" =>
     /\ \A b \in Names : /\ Len(SeqOf(chain.g.inTo, b)) = Cardinality({k \in K : b \in DOMAIN discs[k].inTo})
@@ -383,6 +427,15 @@ RunIsDataFlow ==
                                      /\ Restrict(r.steps[k], discs[k].ins \ discs[k].outs)
                                           = Restrict(DSeen(discs, chain.kind, Completed(D), k), discs[k].ins \ discs[k].outs)
 
+Core(g) == [ins |-> g.ins, req |-> g.req, dflt |-> g.dflt, outs |-> g.outs]
+NestAssoc ==        \* grouping consecutive members of an MDOChain in an inner MDOChain changes nothing
+  (Built /\ chain.kind = "chain") =>
+    \A nst \in Nestings :
+      LET og == NestedG(discs, nst[1], nst[2])
+          ig == InnerG(discs, nst[1], nst[2]) IN
+      /\ Core(og) = Core(chain.g)
+      /\ NestedSame(discs, chain, nst[1], nst[2], og, ig, AllData)
+
 ResOK == res.has => /\ res.r = Exec(discs, chain, res.D)
                     /\ (res.r.ok => res.r.data = DData(discs, chain.kind, Completed(res.D)))
 
@@ -400,6 +453,6 @@ NsCouplingStep ==
               ELSE Coupling(discs', j, k) = Coupling(discs, j, k)]_vars
 
 (* printed once: the numeric layer of the leaves, taken by the harness from here *)
-Header == [tag |-> "HEADER", w |-> W, kbase |-> KBase, obase |-> OBase, inval |-> InVal, names |-> NameSeq]
+Header == [tag |-> "HEADER", junk |-> [name |-> JunkName, val |-> JunkVal], w |-> W, kbase |-> KBase, obase |-> OBase, inval |-> InVal, names |-> NameSeq]
 ASSUME Emit => PrintT(ToJson(Header))
 =================================================================================
